@@ -38,3 +38,6 @@ chk("C16", "exploration", "runtime monitor on sql.Parse: panic/determinism over 
 chk("C10", "exploration", "differential schema monitor: grammar-generated DDL executed by SQLite, Database.Schema/DB.Columns vs PRAGMA table_xinfo/index_list/index_xinfo by index name, plus behavioural IndexedSelect check",
     "Thousands (quick) / ~90k (thorough) SQLite-accepted CREATE TABLE/INDEX programs; every table sqlittle accepts is compared on columns, WITHOUT ROWID, rowid alias, pk columns and every listed index (name, columns, desc, collation). Held on the programs generated for the seed.",
     "SQLite 3.40.1 pragmas are the reference; omitted indexes / rejected tables are allowed by the property and only counted", "DESIGN.md 3 C10")
+chk("C18", "exploration", "runtime monitors: Row.Scan conversion grid vs an independent model of the documented rules + value-lifetime history in a child process (overwrite scanned slices, re-read, close, destroy file, GC)",
+    "Every (grid value, destination kind) pair, PRNG rows x destination lists with arities 0..width+2, shortcuts; lifetime histories over all rows of generated databases. Held on the pairs and histories run.",
+    "numbers convert by Go conversion on this platform; first-read values are validated against SQLite by C01", "DESIGN.md 3 C18")
